@@ -314,6 +314,31 @@ func TestCheck(t *testing.T) {
 				try("sealed-to-held-key-A-naming-held-key-B", h2.HelloRecord(0x0301), ks, fmt.Sprintf("order%d", order))
 			}
 		}
+		// two held keys share the config id (key roll-over); the hello is sealed to the second one with an info string
+		// that is NOT "tls ech" || 0 || its config but "tls ech" || 0 || first config || second config
+		if b.offer != nil {
+			of2 := echgen.Gen(rng, b.key, f.AEAD, echgen.DefaultOpts())
+			encoded := echgen.EncodeInner(of2.Inner, max(of2.RunStart, 0), of2.RunLen, of2.PadLen)
+			ka := echgen.NewKey(b.key.ID, b.key.PublicName, b.key.AEADs...)
+			h2 := of2.Outer.Clone()
+			e2 := h2.Find(tlswire.ExtECH)
+			h2.Exts = append(h2.Exts[:e2:e2], h2.Exts[e2+1:]...)
+			info := append(append([]byte{}, echgen.Info(ka.Config)...), b.key.Config...)
+			snd, err := hpkex.Setup(f.AEAD, b.key.Priv.PublicKey().Bytes(), info, nil)
+			if err != nil {
+				r.Inconclusive("hpke setup: %v", err)
+				return
+			}
+			echgen.SealInto(h2, e2, snd, f.AEAD, b.key.ID, snd.Enc, encoded)
+			try("wrong-info:configs-of-both-same-id-keys", h2.HelloRecord(0x0301), []ech.Key{ka.TLSKey(), b.key.TLSKey()}, "info = prefix || config A || config B, sealed to B")
+		}
+		// 1..3 stray bytes at the end of the extensions block (its length, the handshake length and the record length say so):
+		// the outer hello is not the one the payload was bound to
+		{
+			hh := h.Clone()
+			hh.ExtsTrailing = hellogen.Bytes(rng, 1+rng.IntN(3))
+			try("stray-bytes-at-end-of-extensions", hh.HelloRecord(0x0301), b.keys, len(hh.ExtsTrailing))
+		}
 		// transplant: payload+enc of this hello inside another outer hello for the same key
 		if b.offer != nil {
 			o := echgen.DefaultOpts()
